@@ -352,3 +352,28 @@ Print Assumptions C08_M3_delivered_missed_ka.
 Print Assumptions C08_M3_listen_flushed.
 Print Assumptions C08_M3_delivered_example.
 Print Assumptions C08_M3_undelivered_on_adapter_error.
+
+(* ---- M3: a hang is a genuine one.  The fuelled functions of the model return a hang-looking value when their fuel
+   runs out; with the fuel the definitions use that branch is never taken: giving every fuelled function MORE fuel
+   changes nothing, a hanging flush means the transport never takes another byte and no race is running, and the only
+   hang a read reports is receive_packet(false) on a stream that is exhausted and never closed.  Proofs in
+   Conn/Sem3Fuel.v. ---- *)
+From Passage Require Import Conn.Sem3Fuel.
+
+Theorem C08_M3_no_spurious_hang : forall cfg e encf loclat k p s,
+  exec3_plus cfg e encf loclat k p s = exec3 cfg e encf loclat p s.
+Proof. exact M3_no_spurious_hang. Qed.
+
+Theorem C08_M3_flush_hang_genuine : forall hz s o s',
+  flush hz s = (o, s', FlHang) ->
+  hz = None /\ c_unsent s' <> [] /\ (exists n, c_cap s' = Some n /\ n <= 0) /\ c_sch s' = [].
+Proof. exact flush_hang_genuine. Qed.
+
+Theorem C08_M3_read_hang_genuine : forall cfg e encf loclat m hz s o fin t,
+  read_frame3 cfg e encf loclat m hz s = (o, R3End fin) -> In (OT (t, TEnd OHang)) fin ->
+  m = None /\ b_eof (c2 s) = None.
+Proof. exact read_frame3_hang_genuine. Qed.
+
+Print Assumptions C08_M3_no_spurious_hang.
+Print Assumptions C08_M3_flush_hang_genuine.
+Print Assumptions C08_M3_read_hang_genuine.
